@@ -64,6 +64,31 @@ Proof.
 Qed.
 Print Assumptions accepted_implies_report_ss1.
 
+(** ... instantiated at the implementation's objective type: finite binary64 values compared
+    with [partial_cmp] ([FinOrder.ffcmp]) and [summary_obj_func_val] ([FinOrder.ffmean]); the
+    order hypotheses are theorems there, not assumptions *)
+From Cambrian Require Import Base.F64 Base.FinOrder.
+Theorem best_is_min_ss1_f64 :
+  forall (V M : Type) (hit : ff64 -> bool) (nc : N) (budget : option N) (init_val : V) (os : N -> orc V M)
+         (ls : list (label ff64)) (c : ctl V M ff64) (x : ff64) (v : V) (a b : N),
+    exec ffcmp ffmean hit max_pop_size min_pop_size_for_reeval 1 budget init_val os
+         (init ff64 min_pop_size_for_reeval 1 nc budget init_val os) ls = Ret c (ROk x v a b) ->
+    forall (it : item V M ff64) (y : ff64), In it (c_items c) -> it_res it = Some y ->
+      fle (fval x) (fval y) = true.
+Proof.
+  intros V M hit nc budget init_val os ls c x v a b He it y Hin Hy.
+  assert (H : ffcmp x y <> Gt).
+  { eapply (best_is_min_ss1 V M ff64 ffcmp ffmean hit nc budget init_val os ffcmp_sym ffle_trans ffmean_single); eauto. }
+  destruct x as [x Fx], y as [y Fy]. unfold ffcmp in H. cbn [fval proj1_sig] in *.
+  destruct (fle x y) eqn:E; [reflexivity|]. exfalso. apply H.
+  pose proof (F64Proofs.fle_false_flt y x Fy Fx E) as L.
+  unfold fcmp. unfold flt, BinarySingleNaN.Bltb, SpecFloat.SFltb in L. fold (BinarySingleNaN.Bcompare y x) in L.
+  rewrite (F64Proofs.bcompare_fin y x Fy Fx) in L. rewrite (F64Proofs.bcompare_fin x y Fx Fy).
+  destruct (Raux.Rcompare_spec (BinarySingleNaN.B2R y) (BinarySingleNaN.B2R x)); try discriminate.
+  apply Raux.Rcompare_Gt. assumption.
+Qed.
+Print Assumptions best_is_min_ss1_f64.
+
 (** Non-vacuity: the order hypotheses are met by [Z.compare] with [mean [x] = x], and a
     concrete out-of-order run with an eviction-free population returns its minimum. *)
 Example order_hyps_Z :
